@@ -510,3 +510,64 @@ def _mk_dict(op: str):
 
 for _op in DICT_OPS:
     _mk_dict(_op)
+
+
+# ----------------------------------------------------------------------------- key / value fields that are AnyFields
+@obligation(prop="C17", sites=("op",), encodes=ENC_D, budget={"quick": 120, "thorough": 240},
+            what="a typed dict whose key and value fields are AnyFields WITH validators that normalise (keys "
+                 "stripped and lower-cased, values made absolute): item assignment, update (map / pairs / keywords), "
+                 "setdefault, |= and the constructor route store the normalised forms exactly like the built-in "
+                 "dict holding them (differently spelled keys of one entry collapse)")
+def dict_anyfield_validators(op_i: int, ki: int, kj: int, x: int, y: int) -> bool:
+    """
+    pre: 0 <= op_i <= 5 and 0 <= ki <= 3 and 0 <= kj <= 3 and -9 <= x <= 9 and -9 <= y <= 9
+    post: _
+    """
+    from cincoconfig import AnyField
+    spell = ("http", "HTTP ", " Http", "ftp")
+    k1 = k2 = spell[0]
+    for i in range(4):
+        if ki == i:
+            k1 = spell[i]
+        if kj == i:
+            k2 = spell[i]
+
+    def nkey(k):
+        return k.strip().lower()
+
+    def nval(v):
+        return -v if v < 0 else v
+    schema = Schema()
+    schema.d = DictField(AnyField(validator=lambda cfg, k: k.strip().lower()),
+                         AnyField(validator=lambda cfg, v: -v if v < 0 else v), default=lambda: {})
+    cfg = schema()
+    cfg.d = {"http": 1}
+    proxy = cfg.d
+    hold("op", type(proxy) is DictProxy, "value is not a typed dict")
+    ref = {"http": 1}
+    if op_i == 0:
+        proxy[k1] = x
+        ref[nkey(k1)] = nval(x)
+    elif op_i == 1:
+        proxy.update({k1: x, k2: y})
+        ref.update({nkey(k1): nval(x)})
+        ref.update({nkey(k2): nval(y)})
+    elif op_i == 2:
+        proxy.update([(k1, x), (k2, y)])
+        ref.update([(nkey(k1), nval(x)), (nkey(k2), nval(y))])
+    elif op_i == 3:
+        got = proxy.setdefault(k1, x)
+        want = ref.setdefault(nkey(k1), nval(x))
+        hold("op", got == want, lambda: "setdefault returned %r, built-in %r" % (got, want))
+    elif op_i == 4:
+        proxy |= {k1: x}
+        ref[nkey(k1)] = nval(x)
+    else:
+        cfg.d = {k1: x, k2: y}
+        proxy = cfg.d
+        ref = {}
+        ref[nkey(k1)] = nval(x)
+        ref[nkey(k2)] = nval(y)
+    hold("op", dict(proxy) == ref and list(proxy) == list(ref),
+         lambda: "typed dict holds %r, the built-in dict of normalised entries %r" % (dict(proxy), ref))
+    return True
